@@ -26,7 +26,10 @@ ValsOf(t) == TakeN(AllVals(t), IF Thorough THEN 16 ELSE 8) \cup UnkVals(t)
              \cup UNION {TakeN(MarkPlacements(v), 3) : v \in TakeN(Vals(t, W), 2)}
              \cup {WithMk(Null(t), <<"m1">>), WithMk(Unk(t, NoRf), <<"m2">>)}
 CandsOf(v) == IF v.st = "unk" /\ v.ty.k # "dynamic" THEN TakeN({c \in AllVals(v.ty) : Admits(UnmarkDeep(v), c)}, 6) ELSE {}
-Extra == {DynVal, Null(TDyn), K(TNum, [lm |-> "tenth"]), StrV(<<"1">>), StrV(<<"t", "r", "u", "e">>), StrV(<<"1", ".", "5">>), StrV(<<"x">>)}
+Lm(n) == K(TNum, [lm |-> n])
+Extra == {Lm("almost1"), Lm("almost3"), Lm("malmost1"), Lm("third"), Lm("u64max"), Lm("f64intp"), Lm("e30"), NumV(-10), NumV(3), NumV(401),
+          SeqV(TList(TNum), <<Lm("almost1"), NumV(4)>>), MapV(TObj([a |-> TNum, b |-> TStr]), [a |-> Lm("malmost1"), b |-> StrV(<<"x">>)]),
+          DynVal, Null(TDyn), K(TNum, [lm |-> "tenth"]), StrV(<<"1">>), StrV(<<"t", "r", "u", "e">>), StrV(<<"1", ".", "5">>), StrV(<<"x">>)}
 TSeq == SetToSeq(SrcTypes)
 Mine == SetToSeq({i \in 1..Len(TSeq) : i % ShardN = ShardI})
 Line(t) == [vals |-> [i \in 1..Len(SetToSeq(ValsOf(t))) |-> [v |-> SetToSeq(ValsOf(t))[i], cands |-> SetToSeq(CandsOf(SetToSeq(ValsOf(t))[i]))]],
